@@ -167,21 +167,30 @@ def TState.left (t : TState) : Bytes := t.ib ++ t.s.pending
 /-- repeated reads of size `n` with prefix-length choices `ks` -/
 def readEvents (n : Nat) (ks : List Nat) : List Ev := ks.map (Ev.read n)
 
-/-! ## `Transport.read` / `Transport.Close(force)` around the implementation
+/-! ## `Transport.read` / `Transport.Write` / `Transport.Close(force)` around the implementation
 
-Control skeleton only: one reader inside `Transport.read`, one closer inside `Transport.Close`.
-`avail` abstracts "the raw read can return" (data pending, peer gone, or descriptor closed). -/
+Control skeleton only: one reader inside `Transport.read`, one writer inside `Transport.Write`, one
+closer inside `Transport.Close`. The only lock is `implLock`: the reader holds it for the whole
+implementation read, `Close(false)` takes it, `Close(true)` takes **no lock at all**, and
+`Transport.Write` calls `Impl.Write` without any lock — so nothing a blocked reader or a blocked
+writer may hold stands between a forced close and `Impl.Close`.
+`avail` abstracts "the raw read can return" (data pending or peer gone), `drain` "the raw write can
+complete" (the peer takes the bytes); closing the descriptor releases both blocked calls. -/
 
 inductive RPc | idle | waitLock | inRead | done deriving DecidableEq, Repr
+inductive WPc | idle | inWrite | done deriving DecidableEq, Repr
 inductive CPc | idle | waitLock | closing | done deriving DecidableEq, Repr
 inductive Holder | none | reader | closer deriving DecidableEq, Repr
+inductive Who | reader | writer | closer deriving DecidableEq, Repr
 
 structure LSt where
   r      : RPc
+  w      : WPc
   c      : CPc
-  lock   : Holder
+  lock   : Holder  -- who holds `implLock`
   closed : Bool
-  avail  : Bool    -- data pending or peer gone
+  avail  : Bool    -- data pending or peer gone: a blocked read can return
+  drain  : Bool    -- the peer drains: a blocked write can complete
 deriving DecidableEq, Repr
 
 /-- the reader's next step, if enabled.
@@ -194,7 +203,15 @@ def readerStep (s : LSt) : Option LSt :=
   | .inRead => if s.closed || s.avail then some { s with r := .done, lock := .none } else none
   | .done => none
 
-/-- the closer's next step, if enabled. `force` skips the lock. -/
+/-- the writer's next step, if enabled: `Transport.Write` is `return t.Impl.Write(b)`, no lock.
+`inWrite → done` when the raw write can complete or the descriptor was closed. -/
+def writerStep (s : LSt) : Option LSt :=
+  match s.w with
+  | .idle => some { s with w := .inWrite }
+  | .inWrite => if s.closed || s.drain then some { s with w := .done } else none
+  | .done => none
+
+/-- the closer's next step, if enabled. `force` skips the (only) lock. -/
 def closerStep (force : Bool) (s : LSt) : Option LSt :=
   match s.c with
   | .idle => if force then some { s with c := .closing } else some { s with c := .waitLock }
@@ -202,27 +219,41 @@ def closerStep (force : Bool) (s : LSt) : Option LSt :=
   | .closing => some { s with c := .done, closed := true, lock := if s.lock = .closer then .none else s.lock }
   | .done => none
 
-/-- a schedule: `true` = the reader moves, `false` = the closer moves; a disabled process stutters -/
-def runSched (force : Bool) : LSt → List Bool → LSt
-  | s, [] => s
-  | s, true :: rest => runSched force ((readerStep s).getD s) rest
-  | s, false :: rest => runSched force ((closerStep force s).getD s) rest
+/-- one move of the named process; a disabled process stutters -/
+def move (force : Bool) (s : LSt) : Who → LSt
+  | .reader => (readerStep s).getD s
+  | .writer => (writerStep s).getD s
+  | .closer => (closerStep force s).getD s
 
-/-- a read is blocked inside `Transport.read`: holds the lock, nothing to return -/
-def blockedRead : LSt := ⟨.inRead, .idle, .reader, false, false⟩
+/-- a schedule: which process moves next -/
+def runSched (force : Bool) : LSt → List Who → LSt
+  | s, [] => s
+  | s, p :: rest => runSched force (move force s p) rest
+
+/-- start states: a read blocked inside `Transport.read` (holds the lock, nothing to return) when
+`rb`, a write blocked inside `Transport.Write` (the peer does not drain) when `wb`; the other
+process, if any, has not called yet -/
+def blocked (rb wb : Bool) : LSt :=
+  ⟨if rb then .inRead else .idle, if wb then .inWrite else .idle, .idle,
+   if rb then .reader else .none, false, false, false⟩
 
 /-- progress of the closer -/
 def cprog : CPc → Nat
   | .idle => 0 | .waitLock => 0 | .closing => 1 | .done => 2
 
-def nCloser : List Bool → Nat
+/-- number of closer moves in a schedule -/
+def nCloser : List Who → Nat
   | [] => 0
-  | true :: r => nCloser r
-  | false :: r => nCloser r + 1
+  | .closer :: r => nCloser r + 1
+  | _ :: r => nCloser r
 
-/-- invariant of forced close from a blocked read -/
+/-- invariant of a forced close -/
 def finv (s : LSt) : Prop :=
-  (s.r = .inRead ∨ s.r = .done) ∧ s.c ≠ .waitLock ∧ (s.c = .done → s.closed = true)
+  s.c ≠ .waitLock ∧ (s.c = .done → s.closed = true)
+
+/-- the reader / the writer is inside its implementation call or has returned -/
+def rIn (s : LSt) : Prop := s.r = .inRead ∨ s.r = .done
+def wIn (s : LSt) : Prop := s.w = .inWrite ∨ s.w = .done
 
 
 /-- `cs` is a segmentation of `stream`: non-empty pieces whose concatenation is the stream -/
